@@ -35,6 +35,9 @@ def _text(rng, allow_ws):
 def generate(rng, tier):
     nx, nh = (500, 700) if tier == "quick" else (25000, 35000)
     cases = [{"kind": "x", "s": "a\rb", "family": "cr-witness"}, {"kind": "x", "s": "a\tb", "family": "tab-witness"}]
+    # texts of several lines whose special characters come after the first line break (the known finding above covers the line break
+    # itself, not the special characters around it)
+    cases += [{"kind": "x", "s": t, "family": "xml/multi-line"} for t in ["Layer 1\n<pen up & down>", "Title\nR&D", "\n<", "a\r\n\"b\"", "x\ty'z", "<a>\n<b>", "\n\n&"]]
     for _ in range(nx):
         ws = rng.random() < 0.25
         cases.append({"kind": "x", "s": _text(rng, ws), "family": "xml/ws" if ws else "xml/plain"})
@@ -118,6 +121,11 @@ def _ws_finding(c, r):
     if c["kind"] != "x" or not any(ch in c["s"] for ch in "\t\n\r"):
         return False
     s2 = c["s"].replace("\t", "x").replace("\n", "x").replace("\r", "x")
+    # ... and on this very text the function did what it documents (the five special characters replaced, everything else kept): the
+    # failure is then the parser's white-space normalisation alone, not anything the function did differently because of those characters
+    ref = c["s"].replace("&", "&amp;").replace("<", "&lt;").replace(">", "&gt;").replace('"', "&quot;").replace("'", "&apos;")
+    if r.get("esc") != ref:
+        return False
     try:
         esc = text_utils.xml_escape(s2)
         return list(_lx(esc)) == [s2, s2, s2] and not any(ch in esc for ch in "<>\"'")
